@@ -1,7 +1,9 @@
 SPECIFICATION Spec
 CONSTANTS
   MaxLen = 6
+  Wide = FALSE
   Emit = TRUE
 INVARIANT NoClauseFalsified
+INVARIANT BatchIsSequence
 INVARIANT Scn
 CHECK_DEADLOCK FALSE
